@@ -429,6 +429,20 @@ def run_c09(ctx):
     fps = set()
     n_eval = 0
     sub_cases = []
+    # corpus of past order-dependence witnesses, replayed first
+    cpath = os.path.join(os.path.dirname(HERE), "corpus", "c09_pert_order.json")
+    if os.path.exists(cpath):
+        for d in json.load(open(cpath)):
+            n_eval += 1
+            res = {}
+            for hs in d["hashes"]:
+                try:
+                    res[tuple(hs)] = digest(final_of(d["spec"], d["params"], hashes=hs))
+                except Exception as e:
+                    res[tuple(hs)] = "EXC %r" % e
+            if len(set(res.values())) > 1:
+                ctx.violations.append(dict(property="C09", what="corpus witness: the result depends on the task hash values (%d distinct results)" % len(set(res.values())),
+                                           case=dict(stream="c09-corpus", spec=d["spec"], params=d["params"], hashes=d["hashes"])))
     with Driver() as drv:
         for i in range(n):
             rng, spec, params = case_of(ctx.seed, i)
